@@ -107,3 +107,73 @@ func HarnessEmbed(p0 int) {
 		vassert(c17LastMul == 1 && c17EqCalls >= 1 && !c17LastEq, "Embed(nil): the returned point was multiplied by the cofactor and is not the identity")
 	}
 }
+
+// ---- native replay entries: the same question asked of the real arithmetic
+type c17Ctr struct{ k byte }
+
+func (st *c17Ctr) XORKeyStream(dst, src []byte) {
+	for i := range src {
+		st.k = st.k*77 + 13
+		dst[i] = src[i] ^ st.k
+	}
+}
+
+func HarnessEmbedReplay(p0 int) {
+	var data []byte
+	if p0 >= 0 {
+		data = make([]byte, p0)
+		for i := range data {
+			data[i] = nondetU8()
+		}
+	}
+	ok := true
+	for round := 0; round < 8; round++ { // several streams: the membership test fails with probability 7/8 when skipped
+		var P point
+		P.Embed(data, &c17Ctr{k: byte(round)})
+		var Q point
+		Q.Mul(primeOrderScalar, &P)
+		ok = ok && Q.Equal(nullPoint) && !P.Equal(nullPoint)
+		if p0 >= 0 {
+			dl := p0
+			if dl > 29 {
+				dl = 29
+			}
+			d, err := P.Data()
+			ok = ok && err == nil && len(d) == dl
+			for i := 0; ok && i < dl; i++ {
+				ok = ok && d[i] == data[i]
+			}
+		}
+	}
+	for _, id := range []string{"Embed returns the receiver", "Embed: one stream draw per candidate", "Embed: the length byte is min(EmbedLen, len(data))", "Embed: data copied at offset 1",
+		"Embed(data): the returned point passed the prime-order test l*P == O", "Embed(nil): the returned point was multiplied by the cofactor and is not the identity"} {
+		vassert(ok, id)
+	}
+}
+
+func HarnessDataReplay(p0 int) {
+	var b [32]byte
+	for i := range b {
+		b[i] = nondetU8()
+	}
+	b[0] = byte(p0)
+	var P point
+	vassume(P.UnmarshalBinary(b[:]) == nil)
+	enc, _ := P.MarshalBinary()
+	for i := range b {
+		vassume(enc[i] == b[i])
+	}
+	d, err := P.Data()
+	ok := true
+	if p0 > 29 {
+		ok = err != nil
+	} else {
+		ok = err == nil && len(d) == p0
+		for i := 0; ok && i < p0; i++ {
+			ok = ok && d[i] == b[1+i]
+		}
+	}
+	for _, id := range []string{"Data: a length byte above EmbedLen is an error", "Data: a length byte within range is accepted", "Data: returns exactly the embedded length", "Data: returns the embedded bytes", "EmbedLen is 29"} {
+		vassert(ok, id)
+	}
+}
